@@ -334,6 +334,29 @@ func init() {
 		},
 	})
 
+	// ALTAIR_FORK_EPOCH 0 (possibly BELLATRIX too): the phase0 genesis state is upgraded before the first block; deposits of new
+	// keys are still verified under GENESIS_FORK_VERSION
+	register(&Scenario{
+		Name:    "forks_at_genesis",
+		Knobs:   SpecKnobs{AllForksInside: true, ForkBias: "zero", FastEth1: true},
+		Gen:     GenesisKnobs{MinVals: 16, MaxVals: 24, AllMax: true, Eth1Share: 30},
+		Rates:   OpRates{Exit: 4, BLSChange: 10, Deposit: 50},
+		SkipPct: 5,
+		Init: func(c *Chain) {
+			c.VoteAlways = true
+			c.NewDepositor(c.Spec.MAX_EFFECTIVE_BALANCE, false)
+			c.NewDepositor(c.Spec.MAX_EFFECTIVE_BALANCE, true)
+			c.BadDepositorKind("wrong_domain")
+			c.Stats.Add("deposits_queued", 3)
+		},
+		Mode: func(c *Chain, e common.Epoch) string { return "full" },
+		Check: func(c *Chain) (out []string) {
+			commonChecks(c, &out)
+			expect(c.Spec.ALTAIR_FORK_EPOCH != 0 || c.Stats.Get("validators_added_by_deposit_with_fork_at_epoch_0") >= 1, &out, "no validator registered by deposit")
+			return
+		},
+	})
+
 	register(&Scenario{
 		Name:  "activation_queue",
 		Knobs: SpecKnobs{AllForksInside: true, SmallChurn: true, FastEth1: true},
